@@ -191,12 +191,18 @@ class guard(object):
     def __exit__(self, et, ev, tb):
         if et is None:
             return False
-        if issubclass(et, (Violation, HarnessError, KeyboardInterrupt, SystemExit)):
+        if issubclass(et, (Violation, HarnessError)) or not issubclass(et, Exception):
             return False
         if self.allow and issubclass(et, self.allow):
             return False
         where = innermost_pexpect_frame(tb)
         if where is None:
+            return False
+        frames = traceback.extract_tb(tb)
+        if frames and '/verif/' in frames[-1].filename and not (
+                issubclass(et, OSError) or (issubclass(et, ValueError) and frames[-1].filename.endswith('simkernel.py'))):
+            # raised by harness code called back from pexpect (a proxy): a harness error - unless it is
+            # an OSError, which a proxy only passes on from the real system call it wraps
             return False
         try:
             import hypothesis.errors as he
